@@ -188,6 +188,14 @@ func Eq(a, b *Term) *Term {
 	if a.Op == OpVar && b.Op == OpVar && a.Name == b.Name {
 		return True
 	}
+	// x + c1 == x + c2, x + c == x
+	if a.W > 0 {
+		ab, ac := splitAddConst(a)
+		bb, bc := splitAddConst(b)
+		if ab != nil && bb != nil && sameTerm(ab, bb) {
+			return Bool(ac == bc)
+		}
+	}
 	// zext(x) == const  -> narrow when possible
 	if b.IsConst() && a.Op == OpZExt {
 		in := a.Args[0]
@@ -297,6 +305,16 @@ func Bin(op Op, a, b *Term) *Term {
 		if v, ok := foldBin(op, a.W, a.Val, b.Val); ok {
 			return BV(a.W, v)
 		}
+	}
+	// canonical form: constant operand of + on the right; (x + c1) + c2 -> x + (c1+c2); (x + c1) - c2 likewise
+	if op == OpAdd && a.IsConst() && !b.IsConst() {
+		a, b = b, a
+	}
+	if op == OpSub && b.IsConst() {
+		return Bin(OpAdd, a, BV(a.W, -b.Val))
+	}
+	if op == OpAdd && b.IsConst() && a.Op == OpAdd && a.Args[1].IsConst() {
+		return Bin(OpAdd, a.Args[0], BV(a.W, a.Args[1].Val+b.Val))
 	}
 	switch op {
 	case OpAdd, OpBOr, OpBXor:
@@ -640,4 +658,29 @@ func Subst(t *Term, known map[string]uint64) *Term {
 	default:
 		return Bin(t.Op, args[0], args[1])
 	}
+}
+
+func splitAddConst(t *Term) (*Term, uint64) {
+	if t.IsConst() {
+		return nil, 0
+	}
+	if t.Op == OpAdd && t.Args[1].IsConst() {
+		return t.Args[0], t.Args[1].Val
+	}
+	return t, 0
+}
+
+func sameTerm(a, b *Term) bool {
+	if a == b {
+		return true
+	}
+	if a.Op != b.Op || a.W != b.W || len(a.Args) != len(b.Args) || a.Val != b.Val || a.Name != b.Name || a.Lo != b.Lo {
+		return false
+	}
+	for i := range a.Args {
+		if !sameTerm(a.Args[i], b.Args[i]) {
+			return false
+		}
+	}
+	return true
 }
